@@ -7,6 +7,13 @@ files it publishes land in the work directory D (argv[3]).  The process is meant
 D   work directory (exists; may already contain old versions of the published files / stale temps)
 IN  read-only inputs prepared by the orchestrator (tiny nuwiki directory, bytes to serve, ...)
 
+<scenario> is `name` or `name@N`: N = payload size of the published file (download: bytes served; render: bytes the
+writer produces; zip/makezip: size of every member of IN/nuwiki@N; status: length of the article name, i.e. the JSON
+grows beyond one io buffer).  The sizes are chosen by vt/props/c20.py so that they are NOT multiples of the download
+chunk / the io buffer: then the tail of the payload sits in the user-space buffer of the file object until close().
+
+    python -m vt.harness.c20_producers params - - -      prints the chunk / buffer sizes of the snapshot as JSON
+
 Nothing in here writes below D except through the mwlib code under test (the dummy `writer` of the
 render producer writes to the temp path render.py hands it - that is the writer's contract).
 With C20_RECORD=<dir> (never under strace) a copy of every published file is taken after each publish
@@ -31,6 +38,23 @@ FINALS = {
     "download": ["img.png"],
     "render": ["out.pdf", "status.json"],
 }
+
+
+def split_scenario(scenario):
+    """'ok@1500' -> ('ok', 1500) ; 'ok' -> ('ok', None)"""
+    if "@" in scenario:
+        name, n = scenario.split("@", 1)
+        return name, int(n)
+    return scenario, None
+
+
+def sized(data, n):
+    """first n bytes of data (repeated if shorter); None = all of it"""
+    if n is None:
+        return data
+    if n > len(data):
+        data = data * (n // max(1, len(data)) + 1)
+    return data[:n]
 
 
 def checkpoint(D, producer):
@@ -71,6 +95,8 @@ def record_status_dumps(D, producer):
 
 def run_status(scenario, D, IN):
     from mwlib.utils.status import Status
+    scenario, size = split_scenario(scenario)
+    big = ("Gamma \u00e4\u00f6 " * (size // 9 + 1))[:size] if size else ""     # non-ASCII: bytes != characters
     record_status_dumps(D, "status")
     Status.stdout = None                       # progress line on stdout is not a published file
     if scenario == "nodir":                    # FileNotFoundError branch of dump (status.py:123)
@@ -85,7 +111,9 @@ def run_status(scenario, D, IN):
     st(status="init", progress=0)
     st(status="fetching", progress=30, article="Alpha")
     sub = st.get_sub_range(30, 90)             # shares filename and status dict
-    sub(progress=50, article="Beta äö")
+    sub(progress=50, article="Beta äö" + big)
+    if size:
+        sub(progress=70, article="Delta")      # a shorter payload after a longer one (the temp name is re-truncated)
     st(status="finished", progress=100, article="", content_type="application/pdf", file_extension="pdf")
     if scenario == "nodump":
         st(status="late", auto_dump=False)
@@ -97,7 +125,8 @@ def run_zip(scenario, D, IN):
     from mwlib.apps import buildzip
     silence_qs()
     out = os.path.join(D, "coll.zip")
-    res = buildzip.ZipCreator.create_zip(os.path.join(IN, "nuwiki"), out)
+    scenario, size = split_scenario(scenario)
+    res = buildzip.ZipCreator.create_zip(os.path.join(IN, "nuwiki" if size is None else "nuwiki@%d" % size), out)
     assert res == out
     checkpoint(D, "zip")
 
@@ -109,11 +138,12 @@ def run_makezip(scenario, D, IN):
     record_status_dumps(D, "makezip")
     Status.stdout = None
     out = os.path.join(D, "coll.zip")
+    scenario, size = split_scenario(scenario)
 
     def fake_make_nuwiki(fsdir, metabook=None, wiki_options=None, pod_client=None, status=None):
         # make_nuwiki needs the network; the publish step under test only needs a nuwiki directory
         # (written with plain open/write like mwlib's fsoutput does, not sendfile)
-        srcdir = os.path.join(IN, "nuwiki")
+        srcdir = os.path.join(IN, "nuwiki" if size is None else "nuwiki@%d" % size)
         for d, _dirs, files in os.walk(srcdir):
             os.makedirs(os.path.join(fsdir, os.path.relpath(d, srcdir)), exist_ok=True)
             for fn in files:
@@ -150,7 +180,8 @@ def run_download(scenario, D, IN):
     import httpx
     from mwlib.network import fetch
     silence_qs()
-    data = open(os.path.join(IN, "served.bin"), "rb").read()
+    scenario, size = split_scenario(scenario)
+    data = sized(open(os.path.join(IN, "served.bin"), "rb").read(), size)
     calls = [0]
 
     class Body(httpx.SyncByteStream):
@@ -194,7 +225,10 @@ def run_render(scenario, D, IN):
     silence_qs()
     record_status_dumps(D, "render")
     Status.stdout = None
+    scenario, size = split_scenario(scenario)
     body = open(os.path.join(IN, "rendered.bin"), "rb").read()
+    if size is not None:                            # keep header and trailer: the reader parses the document
+        body = body[:9] + sized(body[9:-7], max(0, size - 16)) + body[-7:]
     out = os.path.join(D, "out.pdf")
     status_file = os.path.join(D, "status.json")
 
@@ -242,8 +276,27 @@ def run_render(scenario, D, IN):
 
 PRODUCERS = {"status": run_status, "zip": run_zip, "makezip": run_makezip, "download": run_download, "render": run_render}
 
+def params():
+    """sizes that decide where user-space buffered bytes exist: the download chunk size of the snapshot's transport
+    module and the buffer size io.open() picks for a file in the scratch file system"""
+    import inspect
+    import io
+    res = {"io_default": io.DEFAULT_BUFFER_SIZE, "chunk": None}
+    try:
+        from mwlib.network import transport
+        d = inspect.signature(transport.stream_download_to_temp).parameters["chunk_size"].default
+        if isinstance(d, int) and d > 0:
+            res["chunk"] = d
+    except Exception as e:
+        res["chunk_error"] = "%s: %s" % (type(e).__name__, e)
+    return res
+
+
 if __name__ == "__main__":
     producer, scenario, D, IN = sys.argv[1:5]
+    if producer == "params":
+        sys.stdout.write(json.dumps(params()) + "\n")
+        sys.exit(0)
     try:
         PRODUCERS[producer](scenario, D, IN)
     except OSError as e:                      # injected faults surface as OSError: the exit code tells the orchestrator
